@@ -12,6 +12,44 @@ TRUST = ("Trusted: Coq 8.16.1 kernel (full .vo build), extraction with ExtrOcaml
          "working tree on every run. ")
 
 CHECKS = {
+    "C04": dict(
+        text="Proof (partial): share <= 1/2 (strict under a stated non-degeneracy), exact zero for hidden/back-facing "
+             "patches, invariance of the angle sum under cyclic shift and reversal of the vertex list, invariance under "
+             "translation, linear isometries and uniform scaling are theorems about the executable model of pt_solution "
+             "(ordered field with sqrt/acos laws; R instance shows the laws satisfiable). NOT carried by any theorem: "
+             "0 <= share, closed-room shares sum to 1, independence of subdivision (all three are the spherical "
+             "angle-excess / Gauss-Bonnet theorem) - exercised only by the failing-input search against an independent "
+             "solid-angle formula.",
+        note=TRUST + "acos/sqrt are abstract operations with stated laws; InstR.v depends on the stdlib real axioms "
+             "(sig_not_dec, sig_forall_dec, functional_extensionality_dep, classic). Visibility is an input (C07).",
+        technique="Coq proof over ordered field + extracted-model correspondence", ref="5/C04"),
+    "C08": dict(
+        text="Proof: count = floor(side/p) per direction and = total_number_of_patches; every patch is the stated grid "
+             "cell (congruent, in the wall plane); cells have disjoint interiors, cover the bounding rectangle and lie in "
+             "it; areas sum to the wall area; wall attribution and normals by contiguous blocks; output depends only on "
+             "per-axis extents and per-vertex flat coordinate hence identical for all vertex orders of a planar wall; "
+             "translation equivariance; Kang tiling = fast tiling. Over any ordered field with floor laws (Qc instance).",
+        note=TRUST + "Float rounding of the last grid line and of translation is measured, not proved; the sqrt-based "
+             "_polygon_area clause assumes SqrtLaws (no Qc instance).",
+        technique="Coq proof over ordered field with floor + extracted-model correspondence", ref="5/C08"),
+    "C14": dict(
+        text="Proof: the wall map with columns (up, normal x up, normal) is rigid for orthonormal (normal, up): inner "
+             "products preserved, +z -> normal, +x -> up, normal component = reference z; the lookup returns the first "
+             "index of minimal squared distance (= smallest angle for unit vectors); nearest rotated sample to rot(w) = "
+             "nearest reference sample to w; the executable model uses exactly these lookups at source deposit, patch "
+             "pair (receiving wall's incoming sample) and receiver. Correspondence of _rotate_coords_to_normal, "
+             "set_wall_brdf, get_scattering_data_* and baked scenes with direction-dependent tables.",
+        note=TRUST + "pyfar's rotation machinery is a black box compared at 1e-12 absolute; completeness "
+             "rot(rotT v) = v is not proved.",
+        technique="Coq proof over commutative ring / ordered ring + extracted-model correspondence", ref="5/C14"),
+    "C18": dict(
+        text="Proof (partial, with refutations): Consistent s -> construct s = Ok for the model of __init__ conversions + "
+             "check() cascade; every catalogue clause that is violated yields ValueError unless it is one of the named "
+             "masked/foreign situations, each of which is exhibited by a _refuted witness theorem (rank-1 normal / up "
+             "vector in a one-wall scene and a bare-int patch_to_wall_ids are ACCEPTED: np.atleast_Nd hides the missing "
+             "axis - known findings). Correspondence: >20000 constructor calls over 5 pipeline stages x ~110 corruptions.",
+        note=TRUST + "Inputs the abstract state cannot describe (ragged lists, NaN scalars, unknown keys) are not carried.",
+        technique="Coq proof over abstract state + extracted-model correspondence", ref="5/C18"),
     "C01": dict(
         text="Proof (partial on one numeric clause): energy balance per order with the RECEIVING wall's reflectance, "
              "the (1+closure error) bound, exact zero for absorbing walls and truncation monotonicity are theorems about "
